@@ -135,7 +135,10 @@ def _(value: complex):
 def sort_set_values(set_values):
     is_sorted = False
     try:
-        set_values = sorted(set_values)
+        # sort by the code representation first, to get a deterministic
+        # (hash independent) result for values which are only partially
+        # ordered, like frozensets
+        set_values = sorted(sorted(set_values, key=repr))
         is_sorted = True
     except TypeError:
         pass
